@@ -44,10 +44,13 @@ def judge(out, behs, lines, found, prop):
     seen = set()
     # unsound whole-stack summaries: known finding F17 for tree-shaped stacks, a violation otherwise
     f17 = [f for f in vlib.known_findings(prop) if f["id"] == "F17"]
+    f28 = [f for f in vlib.known_findings(prop) if f["id"] == "F28"]
     if prop in ("C07", "C09"):
         for b, pos, rec in found["BAD8"]:
             if has_and_then(behs[b]["stack"]) and f17:
                 out.known_finding("F17", f17[0]["what"])
+            elif has_vec_none(behs[b]["stack"]) and f28:
+                out.known_finding("F28", f28[0]["what"])
             else:
                 out.violation("stack %d: the composed collector publishes a summary below what its layers accept (events would be lost): hint=%s stack=%s"
                               % (b, rec["summary"]["hint"], json.dumps(behs[b]["stack"])[:500]), {"behaviour": behs[b], "summary": rec["summary"]})
@@ -81,6 +84,34 @@ def has_and_then(elems):
             return True
         return any(go(x) for x in ([e.get("inner"), e.get("a"), e.get("b")] + list(e.get("items", []))) if isinstance(x, dict))
     return len(elems) >= 2 and any(go(e) for e in elems)
+
+
+def has_vec_none(elems):
+    """signature of known finding F28: at least two top-level elements, a `Vec` with an `Option::None` member next to at
+    least one other member somewhere, and the BOTTOM element of the stack (the one layered directly on the registry) is
+    itself absent (`None`) or is such a Vec - the two shapes in which the unchanged code publishes an unsound hint:
+    `None | .. vec[.., None] ..` (hint OFF) and `vec[filtered, None] | more verbose layers` (the Vec's hint caps them)"""
+    def none(e):
+        return e is not None and e["e"] == "opt" and e.get("inner") is None
+
+    def vecnone(e):
+        return e is not None and e["e"] == "vec" and len(e["items"]) >= 2 and any(none(x) for x in e["items"])
+
+    def unwrap(e):
+        while e is not None and (e["e"] in ("box", "reload") or (e["e"] == "opt" and e.get("inner") is not None)):
+            e = e["inner"]
+        return e
+
+    def go(e):
+        if e is None:
+            return False
+        if vecnone(e):
+            return True
+        return any(go(x) for x in ([e.get("inner"), e.get("a"), e.get("b")] + list(e.get("items", []))) if isinstance(x, dict))
+    if len(elems) < 2 or not any(go(e) for e in elems):
+        return False
+    bottom = unwrap(elems[0])
+    return none(bottom) or vecnone(bottom)
 
 
 def replay(out, path):
